@@ -104,6 +104,29 @@ META3 = {
  "C19": ("try/except around the whole loop of _signals_to_total: the first missing signal drops all later ones", "signals storage with an earlier signal missing (only NONR, only DC, REPH+DC), total read or reduction to off"),
  "C20": ("enumerate() without start in the shared branch of block_distributed_list/array(return_index=True)", "more than one process, return_index=True, a non-empty block on rank > 0"),
 }
+
+META4 = {
+ "C01": ("sparsity shortcut in _loopit (only index pairs where Km is non-zero) with the delta terms kept in full", "operator-form Redfield tensor created in the exciton basis and converted (convert_2_tensor / secularize) in the site basis, coupled sites"),
+ "C02": ("Gaussian pure dephasing evaluated at the end instead of the beginning of each step in the operator-form branch", "operator-form tensor + PureDephasing(dtype='Gaussian') + coherences"),
+ "C03": ("row-wise try/except in set_coupling_by_dipole_dipole: the first singular pair of a row drops the rest of the row", ">= 3 molecules, two of them at the same position (not the last pair of their row)"),
+ "C04": ("managed-array setters relabel the object instead of transforming it when it is written before being read in a context", "object with more than one basis-dependent array (Hamiltonian with remainder coupling JR); first touch inside the context is an assignment to .data"),
+ "C05": ("FrequencyAxis.get_TimeAxis reads the units-managed centre frequency outside its internal-units block (the same slip as C13-b, found independently)", "get_TimeAxis inside a non-internal units context, axis not centred at zero"),
+ "C06": ("TD Redfield rates: integrals shared between sites that share a bath object, skipped where the FIRST such site does not couple the pair", "TDRedfieldRateMatrix, one CorrelationFunction object shared by >= 3 sites, a pair of exciton states with a tiny amplitude product on the first site"),
+ "C07": ("TD operator-form propagation computes the four Redfield terms as two Hermitian-conjugate pairs", "time-dependent tensor in operator form propagating a non-Hermitian operator (coherence, matrix unit, A+iB)"),
+ "C08": ("elemental step memoised on the object keyed on the dense step only", "the same EvolutionSuperOperator calculated twice with the generator changed in between (set_rwa, or a basis context)"),
+ "C09": ("SpectralDensity.__add__ builds the sum from values and shares the left operand's parameter list", "SpectralDensity binary +, then re-use of an object that has been a left operand"),
+ "C10": ("Franck-Condon matrices memoised per pair of electronic signatures, surviving rebuild()", "build, change a mode's HR/shift, rebuild()/build() on the same Aggregate"),
+ "C11": ("basis transformation of dipoles/tensor skipped when the Hamiltonian is diagonal (eigh still sorts)", "uncoupled aggregate with site energies not in ascending order and different dipoles/baths"),
+ "C12": ("second and third polarisation invariants of LabSetup written to swapped slots", "crossed polarisation sequences (XYXY, generic) and pathways through an inter-exciton coherence; spectra differ only for >= 3 coupled molecules"),
+ "C13": ("TimeAxis.get_FrequencyAxis calls shift_to_zero() on the caller's axis (upper-half)", "upper-half TimeAxis with positive start; hidden by aliasing unless compared with the axis as specified"),
+ "C14": ("strong-coupling reorganisation energies looked up with the electronic instead of the vibronic ground-band offset", "strong-coupling thermal_excited_state, ground state with vibrational levels, site-dependent baths"),
+ "C15": ("_split_relaxation_matrix zeroes the caller's rate-matrix diagonal in place (the same slip as C17-b, found independently)", "get_PropagationMatrix(corrections >= 0), then anything else with the same rate matrix"),
+ "C16": ("link search restricted to one component: ambiguous for >= 3 baths", "three or more baths; links point to wrong existing indices, site-site coherences stop converging"),
+ "C17": ("set_rate returns early when numpy.isclose(value, current)", "rates below ~1e-8/fs into an empty slot, or small refinements of an existing rate"),
+ "C18": ("text import of density-matrix evolutions fills the lower triangle in tril order", ".dat/.txt round trip of a (Reduced)DensityMatrixEvolution with N >= 4 and complex coherences"),
+ "C19": ("sums over pathways memoised with a key made of the stored (type, tag) pairs", "pathways storage, two untagged type-level additions to one type with a view read in between"),
+ "C20": ("block_distributed_range distributes whenever parallel_level > 0", "nested parallel regions (a library routine called inside a user's region) on more than one process"),
+}
 pid = sys.argv[1]
 src = sys.argv[2] if len(sys.argv) > 2 else "/tmp/seed/" + pid
 dname = sys.argv[3] if len(sys.argv) > 3 else pid
@@ -112,6 +135,8 @@ if dname.endswith("-b"):
     META = META2
 elif dname.endswith("-c"):
     META = META3
+elif dname.endswith("-d"):
+    META = META4
 os.makedirs(dst, exist_ok=True)
 for f in ("patch.diff", "demo.py"):
     shutil.copy(os.path.join(src, f), os.path.join(dst, f))
@@ -124,7 +149,7 @@ for tier in ("quick", "thorough"):
     res[tier] = {"demo_exit_unmodified": int(m.group(1)), "demo_exit_with_change": int(m.group(2)), "check_exit": int(m.group(3)), "first_clause": m.group(4).strip()[:160]}
     print(out[:200])
 head = subprocess.run(["git", "-C", "/repo", "rev-parse", "--short", "HEAD"], capture_output=True, text=True).stdout.strip()
-meta = {"property": pid, "origin": "fresh sub-agent given only the property text and a scratch worktree" + (" (second round: asked to aim at a different clause than the first seed)" if dname.endswith("-b") else (" (third round: two earlier targets excluded, list of hard-to-notice kinds of change given)" if dname.endswith("-c") else "")),
+meta = {"property": pid, "origin": "fresh sub-agent given only the property text and a scratch worktree" + (" (second round: asked to aim at a different clause than the first seed)" if dname.endswith("-b") else (" (third round: two earlier targets excluded, list of hard-to-notice kinds of change given)" if dname.endswith("-c") else (" (fourth round: three earlier targets excluded)" if dname.endswith("-d") else ""))),
         "what": META[pid][0], "needs_to_manifest": META[pid][1],
         "confirmed": {"repo_head": head, "patch_applies": True,
                       "pinned_suite_with_change": "148/148 stable tests pass (git -C /repo apply; ./baseline.sh; git -C /repo checkout -- .)",
